@@ -1,6 +1,6 @@
 #!/bin/sh
-# collect_seed.sh Cxx : copy /tmp/seed-Cxx/out/{1,2} to seeded/Cxx_{1,2}, remove the scratch worktree
+# collect_seed.sh Cxx [first-index] : copy /tmp/seed-Cxx/out/{1,2} to seeded/Cxx_{first,first+1} (default 1,2), remove the scratch worktree
 p=$1
-for k in 1 2; do d=/verif/seeded/${p}_$k; mkdir -p $d; cp /tmp/seed-$p/out/$k/patch.diff /tmp/seed-$p/out/$k/demo.py /tmp/seed-$p/out/$k/meta.json $d/ 2>/dev/null; done
+b=${2:-1}
+for k in 1 2; do n=$((b + k - 1)); d=/verif/seeded/${p}_$n; mkdir -p $d; cp /tmp/seed-$p/out/$k/patch.diff /tmp/seed-$p/out/$k/demo.py /tmp/seed-$p/out/$k/meta.json $d/ 2>/dev/null; ls $d; done
 git -C /repo worktree remove --force /tmp/seed-$p/wt 2>/dev/null; rm -rf /tmp/seed-$p
-ls /verif/seeded/${p}_1 /verif/seeded/${p}_2
